@@ -940,7 +940,7 @@ Theorem report_cells cfg ds r part :
   exists dl,
     parse_directives ds = MOk dl /\
     new_partition (clip (mkPeriod (bc_from cfg) (bc_to cfg)) (journal_period dl)) (bc_interval cfg) (bc_last cfg) = POk part /\
-    (postings_syntactic dl ->
+    ((bc_close cfg = true -> postings_syntactic dl) ->
      forall row c col,
        rcell row (Some col, Some c) r ==
        dvalue (period_amount (mapped_entries cfg (user_entries (span part) (periods part) (flat_postings dl) ++
@@ -968,7 +968,7 @@ Proof.
   cbn [cbind of_presult fst snd] in H.
   destruct (process_days (query_proc (balance_query cfg part0) report_insert) new_report d5) as [[r6 d6]| |] eqn:E6; try discriminate.
   cbn [cbind of_presult fst snd] in H. inversion H; subst r6 part0. clear H.
-  split; [reflexivity|]. intros Hsyn row c col.
+  split; [reflexivity|]. intros Hsyn row c col. specialize (Hsyn eq_refl).
   destruct (query_days (balance_query cfg part) row (Some col, Some c) _ _ _ _ wf_new_report E6) as (_ & _ & Hcell).
   rewrite Hcell, rcell_new, Qplus_0_l.
   change (map (fun d => if period_contains (span part) (d_date d) then d else set_txns d []) (b_days (builder_touch (builder_of dl) (start_dates part))))
